@@ -316,6 +316,20 @@ pub fn big_cases(rng: &mut Rng, thorough: bool) -> Vec<(&'static str, Vec<u32>, 
             nn.extend(blocks[i].iter().cloned());
         }
         v.push(("permuted_blocks", o, nn));
+        // common prefix and suffix around a large middle part of pairwise distinct items with a few
+        // shared blocks (cheap for every algorithm, also for the LCS table: > 10^6 cells)
+        for (lo, ln) in [(1100usize, 1000usize), (1500, 1500)] {
+            let (l1, l2, l3, l4) = (rng.range(1, 6), rng.range(1, 6), rng.range(3, 30), rng.range(3, 30));
+            let pre = junk(rng, l1, 60000);
+            let suf = junk(rng, l2, 61000);
+            let sh1 = junk(rng, l3, 62000);
+            let sh2 = junk(rng, l4, 63000);
+            let (o1, o2) = (rng.range(1, lo / 2), rng.range(1, lo / 2));
+            let (n1, n2) = (rng.range(1, ln / 2), rng.range(1, ln / 2));
+            let o = cat(&[&pre, &junk(rng, o1, 70000), &sh1, &junk(rng, lo - o1 - o2, 72000), &sh2, &junk(rng, o2, 74000), &suf]);
+            let nw = cat(&[&pre, &junk(rng, n1, 80000), &sh1, &junk(rng, ln - n1 - n2, 82000), &sh2, &junk(rng, n2, 84000), &suf]);
+            v.push(("distinct_big_middle", o, nw));
+        }
         // near identical, long
         let a: Vec<u32> = (0..n as u32).collect();
         let e = rng.range(1, 6);
@@ -333,8 +347,8 @@ pub fn drive_big(a: &Args, out: &mut Out) {
     let mut rng = Rng::new(a.num("seed", 1));
     for (fam, x, y) in big_cases(&mut rng, a.thorough()) {
         for alg in ALGS {
-            if alg == Algorithm::Lcs && x.len() * y.len() > 200_000 {
-                continue; // the LCS table is quadratic
+            if alg == Algorithm::Lcs && x.len() * y.len() > 200_000 && fam != "distinct_big_middle" {
+                continue; // the LCS table is quadratic (it only stores the cells of matching items)
             }
             let c = HCase::simple(alg, &x, &y);
             let case = out.next_case();
